@@ -58,7 +58,7 @@ NoU == [kind |-> "none", chart |-> "none", replace |-> FALSE, atomic |-> FALSE, 
 
 NoOp == [u |-> NoU,
          keep |-> FALSE, nohooks |-> FALSE, ver |-> 0, lim |-> 0, cleanup |-> FALSE,
-         new |-> 0, orig |-> 0, tgt |-> 0, newrec |-> NoRec, lastRev |-> 0, lastSt |-> "",
+         new |-> 0, orig |-> 0, tgt |-> 0, newrec |-> NoRec, origRec |-> NoRec, tgtRec |-> NoRec, lastRev |-> 0, lastSt |-> "",
          curman |-> <<>>, tgtman |-> <<>>, hdefs |-> <<>>, adopted |-> {}, k3 |-> FALSE,
          todo |-> {}, tseq |-> <<>>, dseq |-> <<>>, hrevs |-> {},
          created |-> {}, posted |-> {}, crs |-> {}, log |-> <<>>, uerr |-> FALSE, errs |-> FALSE,
@@ -72,6 +72,15 @@ Deployed == {r \in Used : store[r].st = "deployed"}
 Present(o) == cluster[o].own # "absent"
 
 SetSt(s, r, st) == IF s[r].st = "none" THEN s ELSE [s EXCEPT ![r].st = st]
+
+\* Storage.Update writes the WHOLE in-memory release object the operation holds (not just a status): if another
+\* process replaced the record meanwhile (findings L22 / L23) its content is overwritten too.
+WriteRec(s, r, rec, st) == IF s[r].st = "none" THEN s ELSE [s EXCEPT ![r] = [rec EXCEPT !.st = st]]
+\* the release object an operation holds for the revision it created
+NewRecOf(o) == IF o.u.kind = "rollback" \/ o.ret = "atomicUpgrade" THEN o.newrec ELSE MkRec("", o.u.chart)
+\* ... and for any revision r it writes: its own new one, the original / current one as read, or the uninstall target as read
+MemRec(o, r) == IF r = o.new THEN NewRecOf(o) ELSE IF r = o.orig /\ o.origRec.st # "none" THEN o.origRec
+                ELSE IF r = o.tgt /\ o.tgtRec.st # "none" THEN o.tgtRec ELSE store[r]
 
 Done(o, res) == [pc |-> "End", op |-> [o EXCEPT !.result = res]]
 
@@ -231,7 +240,7 @@ UPrepared(o, orig, lastRev) ==
   LET tgt == ChartMan(o.u.chart)
       cur == store[orig].man
       tbc == SelectSeq(ManOrder(tgt), LAMBDA r : r \notin DOMAIN cur \/ ~SameKey(cur[r], tgt[r]))
-      o1 == [o EXCEPT !.orig = orig, !.origSt = store[orig].st, !.new = lastRev + 1,
+      o1 == [o EXCEPT !.orig = orig, !.origSt = store[orig].st, !.origRec = store[orig], !.new = lastRev + 1,
                       !.tgtman = tgt, !.curman = cur, !.tseq = tbc, !.adopted = {}] IN
   IF lastRev = MaxRev THEN Done(o, "err")
   ELSE IF tbc = <<>> THEN UOwnDone(o1) ELSE [pc |-> "U_Own", op |-> o1]
@@ -376,7 +385,7 @@ H_Record(p) ==
   /\ pc[p] = "H_Record" /\ Budgets
   /\ LET o == op[p]  t == [pc |-> "H_Create", op |-> o] IN
      StoreWrite(p, "update", o.hk.rev, store[o.hk.rev].st # "none",
-                SetSt(store, o.hk.rev, o.memSt), t, t, t)            \* cfg.recordRelease: error swallowed
+                WriteRec(store, o.hk.rev, MemRec(o, o.hk.rev), o.memSt), t, t, t)            \* cfg.recordRelease: error swallowed
 
 H_Create(p) ==
   /\ pc[p] = "H_Create" /\ Budgets
@@ -518,8 +527,13 @@ P_Del(p) ==
                     THEN IF oo.uerr THEN PFail([oo EXCEPT !.dseq = <<>>])
                          ELSE [pc |-> PCreatePc(oo), op |-> [oo EXCEPT !.dseq = <<>>]]
                     ELSE [pc |-> "P_Del", op |-> [oo EXCEPT !.dseq = Tail(@)]] IN
+     \* pruning does not look at the status: it can delete the pending record of an operation that is still
+     \* running in another process, which then no longer holds its revision number (finding L23)
+     \* (the list of victims was computed from earlier reads: by now the record may even be the deployed one)
+     LET o23 == [o EXCEPT !.kf = IF store[r].st = "deployed" \/ (\E q \in Procs : q # p /\ r \in op[q].crs)
+                                 THEN @ \cup {"L23"} ELSE @] IN
      StoreWrite(p, "delete", r, store[r].st # "none", [store EXCEPT ![r] = NoRec],
-                nxt(o), nxt([o EXCEPT !.uerr = TRUE]), nxt([o EXCEPT !.uerr = TRUE]))
+                nxt(o23), nxt([o EXCEPT !.uerr = TRUE]), nxt([o EXCEPT !.uerr = TRUE]))
 
 (* ----- install ------------------------------------------------------------------- *)
 
@@ -580,7 +594,7 @@ I_ReplHist(p) ==
 I_ReplUpdate(p) ==
   /\ pc[p] = "I_ReplUpdate" /\ Budgets
   /\ LET o == op[p] IN
-     StoreWrite(p, "update", o.orig, store[o.orig].st # "none", SetSt(store, o.orig, "superseded"),
+     StoreWrite(p, "update", o.orig, store[o.orig].st # "none", WriteRec(store, o.orig, MemRec(o, o.orig), "superseded"),
                 [pc |-> "I_Create", op |-> o], Done(o, "err"), Done(o, "err"))
 
 I_Create(p) ==
@@ -616,13 +630,13 @@ I_Wait(p) ==
 I_Deployed(p) ==
   /\ pc[p] = "I_Deployed" /\ Budgets
   /\ LET o == op[p]  t == Done(o, "ok") IN
-     StoreWrite(p, "update", o.new, store[o.new].st # "none", SetSt(store, o.new, "deployed"), t, t,
+     StoreWrite(p, "update", o.new, store[o.new].st # "none", WriteRec(store, o.new, MemRec(o, o.new), "deployed"), t, t,
                 Done([o EXCEPT !.kf = @ \cup {"L2i"}], "ok"))                       \* error swallowed (L2)
 
 I_FailRec(p) ==
   /\ pc[p] = "I_FailRec" /\ Budgets
   /\ LET o == op[p]  t == Done(o, "err") IN
-     StoreWrite(p, "update", o.new, store[o.new].st # "none", SetSt(store, o.new, "failed"), t, t, t)
+     StoreWrite(p, "update", o.new, store[o.new].st # "none", WriteRec(store, o.new, MemRec(o, o.new), "failed"), t, t, t)
 
 (* ----- uninstall -------------------------------------------------------------------- *)
 
@@ -634,7 +648,7 @@ X_Hist(p) ==
        ELSE IF o.u.dry /\ o.ret = "" THEN Done(o, "ok")
        ELSE IF store[Last].st = "uninstalled"
             THEN IF o.keep THEN XEnd(o, "err") ELSE XPurgeStart([o EXCEPT !.errs = FALSE], Used, "ok")
-            ELSE LET o1 == [o EXCEPT !.tgt = Last, !.hrevs = Used, !.memSt = "uninstalling", !.errs = FALSE,
+            ELSE LET o1 == [o EXCEPT !.tgt = Last, !.tgtRec = store[Last], !.hrevs = Used, !.memSt = "uninstalling", !.errs = FALSE,
                                      !.tgtman = store[Last].man, !.hdefs = store[Last].hooks] IN
                  EnterHooks(o1, "pre-delete", Last, store[Last].hooks, "X_Mark", "X_HookFail"))
 
@@ -645,7 +659,7 @@ X_Mark(p) ==
          o2 == [o EXCEPT !.kf = IF \E r \in DOMAIN o.tgtman : o.tgtman[r].pol = "other" THEN @ \cup {"L7"} ELSE @]
          t == IF dels = {} THEN XAfterDel(o2)
               ELSE [pc |-> "X_Del", op |-> [o2 EXCEPT !.todo = dels, !.uerr = FALSE]] IN
-     StoreWrite(p, "update", o.tgt, store[o.tgt].st # "none", SetSt(store, o.tgt, "uninstalling"), t, t, t)
+     StoreWrite(p, "update", o.tgt, store[o.tgt].st # "none", WriteRec(store, o.tgt, MemRec(o, o.tgt), "uninstalling"), t, t, t)
 
 X_Del(p) ==
   /\ pc[p] = "X_Del" /\ Budgets
@@ -661,7 +675,7 @@ X_Del(p) ==
 X_RecUn(p) ==
   /\ pc[p] = "X_RecUn" /\ Budgets
   /\ LET o == op[p]  t == XEnd(o, IF o.errs THEN "err" ELSE "ok") IN
-     StoreWrite(p, "update", o.tgt, store[o.tgt].st # "none", SetSt(store, o.tgt, "uninstalled"), t, t, t)
+     StoreWrite(p, "update", o.tgt, store[o.tgt].st # "none", WriteRec(store, o.tgt, MemRec(o, o.tgt), "uninstalled"), t, t, t)
 
 X_Purge(p) ==
   /\ pc[p] = "X_Purge" /\ Budgets
@@ -714,7 +728,7 @@ U_Create(p) ==
 U_ReRecord(p) ==
   /\ pc[p] = "U_ReRecord" /\ Budgets
   /\ LET o == op[p]  t == [pc |-> "U_FailRec", op |-> o] IN
-     StoreWrite(p, "update", o.orig, store[o.orig].st # "none", SetSt(store, o.orig, o.origSt), t, t, t)
+     StoreWrite(p, "update", o.orig, store[o.orig].st # "none", WriteRec(store, o.orig, MemRec(o, o.orig), o.origSt), t, t, t)
 
 U_Wait(p) ==
   /\ pc[p] = "U_Wait" /\ Budgets
@@ -726,20 +740,20 @@ U_Wait(p) ==
 U_Supersede(p) ==
   /\ pc[p] = "U_Supersede" /\ Budgets
   /\ LET o == op[p]  t == [pc |-> "U_RecDeployed", op |-> o] IN
-     StoreWrite(p, "update", o.orig, store[o.orig].st # "none", SetSt(store, o.orig, "superseded"), t, t,
+     StoreWrite(p, "update", o.orig, store[o.orig].st # "none", WriteRec(store, o.orig, MemRec(o, o.orig), "superseded"), t, t,
                 [pc |-> "U_RecDeployed", op |-> [o EXCEPT !.kf = @ \cup {"L2u"}]])   \* swallowed (L2)
 
 U_RecDeployed(p) ==
   /\ pc[p] = "U_RecDeployed" /\ Budgets
   /\ LET o == op[p] IN
-     StoreWrite(p, "update", o.new, store[o.new].st # "none", SetSt(store, o.new, "deployed"),
+     StoreWrite(p, "update", o.new, store[o.new].st # "none", WriteRec(store, o.new, MemRec(o, o.new), "deployed"),
                 Done(o, "ok"), Done(o, "err"), Done(o, "err"))
 
 \* failRelease
 U_FailRec(p) ==
   /\ pc[p] = "U_FailRec" /\ Budgets
   /\ LET o == op[p]  t == UAfterFailRec(o) IN
-     StoreWrite(p, "update", o.new, store[o.new].st # "none", SetSt(store, o.new, "failed"), t, t, t)
+     StoreWrite(p, "update", o.new, store[o.new].st # "none", WriteRec(store, o.new, MemRec(o, o.new), "failed"), t, t, t)
 
 \* cleanup-on-fail: kube.Client.Delete(created), batched by kind
 C_Del(p) ==
@@ -770,7 +784,7 @@ R_Last(p) ==
   /\ LET o == op[p] IN
      StoreRead(p, "query", "history", Used # {},
        IF Used = {} THEN REnd(o, "err")
-       ELSE [pc |-> "R_Hist", op |-> [o EXCEPT !.orig = Last, !.origSt = store[Last].st, !.curman = store[Last].man,
+       ELSE [pc |-> "R_Hist", op |-> [o EXCEPT !.orig = Last, !.origSt = store[Last].st, !.origRec = store[Last], !.curman = store[Last].man,
                                                !.tgt = IF o.ver = 0 THEN Last - 1 ELSE o.ver]])
 
 R_Hist(p) ==
@@ -803,7 +817,7 @@ R_Create(p) ==
 R_FailCur(p) ==
   /\ pc[p] = "R_FailCur" /\ Budgets
   /\ LET o == op[p]  t == [pc |-> "R_FailNew", op |-> o] IN
-     StoreWrite(p, "update", o.orig, store[o.orig].st # "none", SetSt(store, o.orig, "superseded"), t, t, t)
+     StoreWrite(p, "update", o.orig, store[o.orig].st # "none", WriteRec(store, o.orig, MemRec(o, o.orig), "superseded"), t, t, t)
 
 R_FailNew(p) ==
   /\ pc[p] = "R_FailNew" /\ Budgets
@@ -811,7 +825,7 @@ R_FailNew(p) ==
          t == IF o.cleanup /\ o.created # {}
               THEN [pc |-> "C_Del", op |-> [o EXCEPT !.todo = o.created, !.uerr = FALSE, !.kctx = "rollbackC"]]
               ELSE REnd(o, "err") IN
-     StoreWrite(p, "update", o.new, store[o.new].st # "none", SetSt(store, o.new, "failed"), t, t, t)
+     StoreWrite(p, "update", o.new, store[o.new].st # "none", WriteRec(store, o.new, MemRec(o, o.new), "failed"), t, t, t)
 
 R_Wait(p) ==
   /\ pc[p] = "R_Wait" /\ Budgets
@@ -823,12 +837,12 @@ R_Wait(p) ==
 R_WFailCur(p) ==
   /\ pc[p] = "R_WFailCur" /\ Budgets
   /\ LET o == op[p]  t == [pc |-> "R_WFailNew", op |-> o] IN
-     StoreWrite(p, "update", o.orig, store[o.orig].st # "none", SetSt(store, o.orig, o.origSt), t, t, t)
+     StoreWrite(p, "update", o.orig, store[o.orig].st # "none", WriteRec(store, o.orig, MemRec(o, o.orig), o.origSt), t, t, t)
 
 R_WFailNew(p) ==
   /\ pc[p] = "R_WFailNew" /\ Budgets
   /\ LET o == op[p]  t == REnd(o, "err") IN
-     StoreWrite(p, "update", o.new, store[o.new].st # "none", SetSt(store, o.new, "failed"), t, t, t)
+     StoreWrite(p, "update", o.new, store[o.new].st # "none", WriteRec(store, o.new, MemRec(o, o.new), "failed"), t, t, t)
 
 R_DepAll(p) ==
   /\ pc[p] = "R_DepAll" /\ Budgets
@@ -848,7 +862,7 @@ R_Sup(p) ==
 R_RecDeployed(p) ==
   /\ pc[p] = "R_RecDeployed" /\ Budgets
   /\ LET o == op[p] IN
-     StoreWrite(p, "update", o.new, store[o.new].st # "none", SetSt(store, o.new, "deployed"),
+     StoreWrite(p, "update", o.new, store[o.new].st # "none", WriteRec(store, o.new, MemRec(o, o.new), "deployed"),
                 REnd(o, "ok"), REnd(o, "err"), REnd(o, "err"))
 
 -----------------------------------------------------------------------------
